@@ -465,13 +465,17 @@ func handleDownload(c *Client, r *Response) (err error) {
 		output = r.Request.output // must not nil
 	}
 
-	defer func() {
-		body.Close()
-		closeq(output)
-	}()
+	defer body.Close()
 
 	_, err = io.Copy(output, body)
 	r.setReceivedAt()
+	// closing flushes the output: a failed close fails a download that was copied cleanly (a copy
+	// error stands whatever Close returns)
+	if oc, ok := output.(io.Closer); ok {
+		if cerr := oc.Close(); err == nil {
+			err = cerr
+		}
+	}
 	return
 }
 
